@@ -16,9 +16,10 @@ RUN = "^TestVerifC06$"
 
 META = dict(
     text="TLA+ model of the cache-aside protocol (database, Redis contents with expiry, reachability per node, "
-         "pending removal retries on the delay ladder, dirty keys) model-checked for coherence, shielding, "
-         "no-fall-through, TTL range and the retry ladder; TLC enumerates every history of "
-         "QueryRow/QueryRowIndex/Exec/DelCache/SetCache/outage/time steps up to a bound (plus seeded simulation "
+         "pending removal retries on the delay ladder, dirty keys, expiry options as configured and in effect) "
+         "model-checked for coherence, shielding, no-fall-through, TTL range, the retry ladder and its independence "
+         "of the caller's context; TLC enumerates every history of "
+         "QueryRow/QueryRowIndex/Exec(Ctx)/DelCache(Ctx)/SetCache/outage/time steps up to a bound (plus seeded simulation "
          "of long ones) with the predicted result, database-callback count, DEL commands per second and cache "
          "contents, and each history is executed through sqlc.CachedConn on miniredis (single node and "
          "consistent-hash cluster with every placement class) with the cleaner's timing wheel driven tick by tick.",
@@ -29,12 +30,17 @@ META = dict(
          "cache node over Redis of type node and of type cluster (per-key removals failing individually), "
          "primary keys that are small integers, integers above 2^53 and strings (sequential histories and concurrent "
          "QueryRowIndex readers, decoded into `any`), "
+         "writes through Exec/DelCache and through ExecCtx/DelCacheCtx with a context cancelled right after the call "
+         "or with a deadline that passes before the first retry (plans ctx*, sim*), expiry / not-found expiry options "
+         "not given, zero, negative and small positive in all 16 combinations (plans cfg*, sim*; 7 days / 1 minute "
+         "are in effect for non-positive values), "
          "histories of 3-6 operations exhaustively (each <= 60 000 histories) + seeded simulated histories of 14-40 "
          "operations, <= 4 outages, ladder rungs up to 60 s exhaustively and up to 3600 s in the thorough simulation. "
          "Not covered: operations racing with outages or with writes (only sequential histories + concurrent readers of "
          "uncached keys between writes), a real multi-shard Redis Cluster (the ClusterType branch of node.DelCtx is driven "
          "through go-redis' ClusterClient against one miniredis that owns all slots), hit/miss statistics "
-         "(stat.go), invalid JSON in the cache (processCache), TakeWithExpire callers "
+         "(stat.go), invalid JSON in the cache (processCache), a caller context that ends DURING a write (only after "
+         "it returned), sub-second expiry options, TakeWithExpire callers "
          "other than QueryRowIndex. CacheAsideImpl (step-wise doTake model) of DESIGN.md was not built: the "
          "concurrent clause is decided by validating recorded traces of the real code against CacheAsideTrace.tla.",
     technique="TLA+ spec (CacheAside) + TLC-generated histories replayed on sqlc.CachedConn/miniredis; "
@@ -60,10 +66,25 @@ def place_text(ids, names, place):
     return "(" + " @@ ".join('%s :> %d' % (q(k), place[k]) for k in keys) + ")"
 
 
-def consts(ids, names, datas, nodes, place, ladder, jits, initdbs, adv, maxfail, e=40, nf=20):
+# expiry in effect when the option is not given or not positive (lib/store/cache/option.go: 7 days / 1 minute)
+DEF_E, DEF_NF = 7 * 24 * 3600, 60
+CTX_ALL = ["bg", "cancel", "deadline"]
+
+
+def opt_text(v):
+    """an expiry option: None = not given, else WithExpire(v seconds), v possibly zero or negative"""
+    return "[set |-> FALSE, v |-> 0]" if v is None else "[set |-> TRUE, v |-> %d]" % v
+
+
+def cfgs_text(cfgs):
+    return "{%s}" % ", ".join("[e |-> %s, nf |-> %s]" % (opt_text(e), opt_text(nf)) for e, nf in cfgs)
+
+
+def consts(ids, names, datas, nodes, place, ladder, jits, initdbs, adv, maxfail, e=40, nf=20, cfgs=None, ctxs=("bg",)):
     return dict(Ids="{%s}" % ", ".join(map(str, ids)), Names=sset(names), Datas=sset(datas),
                 Nodes="{%s}" % ", ".join(map(str, nodes)), Place=place_text(ids, names, place),
-                E=e, NF=nf, Gap=5, Ladder="<<%s>>" % ", ".join(map(str, ladder)), Jits=sset(jits),
+                Cfgs=cfgs_text(cfgs or [(e, nf)]), DefE=DEF_E, DefNF=DEF_NF, Ctxs=sset(ctxs),
+                Gap=5, Ladder="<<%s>>" % ", ".join(map(str, ladder)), Jits=sset(jits),
                 InitDBs=initdbs, Adv="{%s}" % ", ".join(map(str, adv)), MaxFail=maxfail)
 
 
@@ -80,19 +101,27 @@ def mc(ctx, ladder):
     ids, names = [1, 2], ["a"]
     K = consts(ids, names, ["x", "y"], [1], one_node(ids, names), ladder[:3], ["hi"],
                "{%s}" % DB_EMPTY, [1, 5, 21], 2, e=20, nf=20)
-    inv = ["TypeOK", "CacheTruth", "TTLRange"]
+    inv = ["TypeOK", "CacheTruth", "TTLRange", "CtxFree"]
     props = ["Coherent", "Shield", "NoFallThrough", "RetryLadder"]
     cfg = core.render_cfg(spec="Spec", constants=K, invariants=inv, properties=props, constraints=["Bound"], view="core")
     lvl = 6 if ctx.quick else 7
     ctx.tlc("CacheAside", cfg, constants=K, defs=dict(Bound='s.clk <= 32 /\\ TLCGet("level") <= %d' % lvl),
-            name="CacheAside-mc1", timeout=900, workers=4, heap="4g")
+            name="CacheAside-mc1", timeout=900, workers=6, heap="4g")
     # two-node cluster, primary keys on node 1, index keys on node 2
     ids, names = [1], ["a", "b"]
     K = consts(ids, names, ["x", "y"], [1, 2], {"p:1": 1, "i:a": 2, "i:b": 2}, ladder[:3], ["lo"],
                "{%s}" % DB_ONE, [1, 5, 21], 2, e=20, nf=20)
     cfg = core.render_cfg(spec="Spec", constants=K, invariants=inv, properties=props, constraints=["Bound"], view="core")
     ctx.tlc("CacheAside", cfg, constants=K, defs=dict(Bound='s.clk <= 32 /\\ TLCGet("level") <= %d' % lvl),
-            name="CacheAside-mc2", timeout=900, workers=4, heap="4g")
+            name="CacheAside-mc2", timeout=900, workers=6, heap="4g")
+    # the caller's context of writes and the expiry configuration (given as a positive number of seconds, as zero,
+    # as a negative number, not given: the defaults are in effect) on a small model: 1 id, 1 index value, 1 payload
+    ids, names = [1], ["a"]
+    K = consts(ids, names, ["x"], [1], one_node(ids, names), ladder[:3], ["hi"],
+               "{%s, %s}" % (DB_EMPTY, DB_ONE), [1, 21], 2, cfgs=[(20, 20), (0, None), (None, -3), (-1, 3)], ctxs=CTX_ALL)
+    cfg = core.render_cfg(spec="Spec", constants=K, invariants=inv, properties=props, constraints=["Bound"], view="core")
+    ctx.tlc("CacheAside", cfg, constants=K, defs=dict(Bound='s.clk <= 32 /\\ TLCGet("level") <= %d' % (lvl - 1)),
+            name="CacheAside-mc3", timeout=900, workers=6, heap="4g")
 
 
 def gen(ctx, name, K, *, maxops, ops, maxdown=1, tail=6, audit_ids=None, audit_names=None, simulate=None, depth=None):
@@ -104,16 +133,20 @@ def gen(ctx, name, K, *, maxops, ops, maxdown=1, tail=6, audit_ids=None, audit_n
              AuditNames="<<%s>>" % ", ".join(q(n) for n in (audit_names if audit_names is not None else names)))
     cfg = core.render_cfg(spec="GSpec", constants=G, invariants=["Emit"])
     r = ctx.tlc("CacheAsideGen", cfg, constants=G, name=name, simulate=simulate, depth=depth, timeout=1500,
-                workers=(1 if simulate else 4), heap="3g")
+                workers=(1 if simulate else 6), heap="3g")
     return r.printed
 
 
+# expiry option x not-found expiry option: not given, zero, negative, small positive
+CFG_ALL = [(e, nf) for e in (None, 0, -1, 7) for nf in (None, 0, -60, 3)]
+CFG_SIM = [(30, 10), (0, 10), (30, -1), (None, None)]
 READS = ["qrow", "qindex"]
 WRITES = ["put", "delete"]
 
 
 def drv_cfg(K, nodes, place, ids, names, rtype="node", pk="small"):
-    return json.dumps(dict(nodes=nodes, place=place, ids=ids, names=names, expire=K["E"], nf=K["NF"], rtype=rtype, pk=pk))
+    # (the expiry configuration is part of every history: its init record)
+    return json.dumps(dict(nodes=nodes, place=place, ids=ids, names=names, rtype=rtype, pk=pk))
 
 
 def get_ladder(ctx, binp):
@@ -132,19 +165,25 @@ def get_ladder(ctx, binp):
 
 class Plan:
     def __init__(self, name, ids, names, datas, nodes, place, jits, initdbs, adv, maxfail, maxops, ops, maxdown=1,
-                 tail=6, fault="error", simulate=None, depth=None, shards=6, e=40, nf=20, rtype="node", pk="small"):
+                 tail=6, fault="error", simulate=None, depth=None, shards=6, e=40, nf=20, rtype="node", pk="small",
+                 cfgs=None, ctxs=("bg",)):
         self.__dict__.update(locals())
 
 
-def run_plan(ctx, binp, ladder, p):
+def gen_plan(ctx, ladder, p):
+    """TLC: the histories of plan p (runs ahead of the replay of the previous plan)"""
     K = consts(p.ids, p.names, p.datas, list(range(1, p.nodes + 1)), p.place, ladder, p.jits, p.initdbs, p.adv, p.maxfail,
-               e=p.e, nf=p.nf)
+               e=p.e, nf=p.nf, cfgs=p.cfgs, ctxs=p.ctxs)
     cases = gen(ctx, p.name, K, maxops=p.maxops, ops=p.ops, maxdown=p.maxdown, tail=p.tail, simulate=p.simulate,
                 depth=p.depth)
     if not cases:
         raise core.Infra("plan %s generated no behaviour" % p.name)
     path, n = ctx.write_cases(p.name + ".ndjson", cases)
-    ctx.samples += core.sample_of(cases, 1)
+    return K, path, n, core.sample_of(cases, 1)
+
+
+def replay_plan(ctx, binp, p, K, path, n, sample):
+    ctx.samples += sample
     env = dict(VERIF_C06_CFG=drv_cfg(K, p.nodes, p.place, p.ids, p.names, p.rtype, p.pk), VERIF_C06_FAULT=p.fault)
     ctx.notes.setdefault("plans", {})[p.name] = dict(cases=n, maxops=p.maxops, ops=p.ops, nodes=p.nodes, fault=p.fault,
                                                      adv=p.adv, tail=p.tail, simulate=p.simulate)
@@ -195,9 +234,17 @@ def plans_for(ctx):
     # real "down, then back": the server is closed and restarted
     P.append(Plan("close", i1, n1, d, 1, one1, ["hi"], dbs, [1, 5], 2, 3 if q else 4, ["qrow", "put", "adv", "down", "up"],
                   maxdown=1, fault="close", shards=4, e=30, nf=10))
+    # the caller's context of the writes: Exec/DelCache (background), ExecCtx/DelCacheCtx with a context that is
+    # cancelled right after the call has returned / whose deadline passes before the first retry; the removals
+    # that failed during the call must climb the same ladder
+    P.append(Plan("ctx", i1, n1, d, 1, one1, ["mid"], dbs, [1, 5], 3, 3 if q else 4, ["put", "delcache", "adv", "down", "up"],
+                  maxdown=2, e=30, nf=10, ctxs=CTX_ALL))
+    # how the expiry options are configured: not given, zero, negative (the defaults are in effect), small positive
+    P.append(Plan("cfg", i1, n1, d, 1, one1, ["lo", "hi"], dbs if q else dbs2, [1, 8], 0, 3 if q else 4,
+                  READS + WRITES + ["adv"], maxdown=0, cfgs=CFG_ALL))
     # long random histories
     P.append(Plan("sim", i2, n2, d, 1, one2, ["lo", "mid", "hi"], dbs2, [1, 5, 10, 11, 60], 6, 14 if q else 40, ALL,
-                  maxdown=4, simulate=300 if q else 3000, depth=60, tail=61, e=30, nf=10))
+                  maxdown=4, simulate=300 if q else 3000, depth=60, tail=61, cfgs=CFG_SIM, ctxs=CTX_ALL))
     if not q:
         P.append(Plan("coh-lo", i2, n2, d, 1, one2, ["lo"], dbs2, [1, 10], 0, 4, READS + WRITES + ["adv"], maxdown=0, e=30, nf=10))
         P.append(Plan("coh-mid", i2, n2, d, 1, one2, ["mid"], dbs, [20, 45], 0, 4, READS + WRITES + ["adv"], maxdown=0))
@@ -213,7 +260,16 @@ def plans_for(ctx):
         P.append(Plan("clu-three", i1, n2, d, 3, three, ["lo"], dbs, [1, 5], 3, 4, CLU, maxdown=2, e=30, nf=10))
         P.append(Plan("clu-2ids", i2, n2, d, 2, split2, ["hi"], dbs, [1, 5], 2, 3, CLU, maxdown=1))
         P.append(Plan("sim-clu", i2, n2, d, 2, split2, ["lo", "mid", "hi"], dbs2, [1, 5, 20, 60], 6, 30, ALL,
-                      maxdown=4, simulate=2000, depth=60, tail=61))
+                      maxdown=4, simulate=2000, depth=60, tail=61, cfgs=[(40, 20), (-40, 20), (40, 0)], ctxs=CTX_ALL))
+        # caller contexts / expiry configurations on the cluster paths (consistent-hash cluster, Redis of ClusterType)
+        P.append(Plan("ctx-clu", i1, n2, d, 2, split, ["hi"], dbs, [1, 5], 3, 4, ["put", "adv", "down", "up"], maxdown=2,
+                      ctxs=CTX_ALL))
+        P.append(Plan("ctx-rclu", i1, n2, d, 2, vmixed, ["lo"], dbs, [1], 3, 4, ["put", "delete", "down", "up"], maxdown=2,
+                      rtype="cluster", ctxs=CTX_ALL))
+        P.append(Plan("cfg-clu", i1, n2, d, 2, split, ["mid"], dbs, [1, 8], 0, 3, READS + WRITES + ["adv"], maxdown=0,
+                      cfgs=CFG_ALL))
+        P.append(Plan("cfg-rclu", i1, n1, d, 1, one1, ["hi"], dbs, [8], 0, 3, READS + WRITES + ["adv"], maxdown=0,
+                      rtype="cluster", cfgs=CFG_ALL))
         # the whole ladder up to the last rung (thousands of virtual seconds per history)
         P.append(Plan("sim-ladder", i1, n1, d, 1, one1, ["mid"], dbs, [1, 5, 60, 300, 3600], 6, 9,
                       ["put", "down", "up", "adv", "qrow"], maxdown=3, simulate=150, depth=30, tail=3601))
@@ -303,6 +359,16 @@ def concurrent(ctx, binp):
 
 
 def run(ctx):
+    try:
+        run_all(ctx)
+    except core.Infra as e:
+        # a harness problem never masks a disagreement that was already observed (and confirmed by re-execution) on the code
+        if not ctx.disagreements:
+            raise
+        ctx.notes["harness_problem_after_disagreement"] = str(e)[:2000]
+
+
+def run_all(ctx):
     binp = ctx.go_build(PKG, OVERLAY, name="c06drv")
     ladder = get_ladder(ctx, binp)
     ctx.notes["ladder_from_code_s"] = ladder
@@ -314,16 +380,23 @@ def run(ctx):
     if not only or "mc" in only:
         mc(ctx, ladder)
     ctx.exhaustive = True
-    for p in plans_for(ctx):
-        if only and p.name not in only:
-            continue
-        run_plan(ctx, binp, ladder, p)
+    # the histories of the next plan are generated while those of the current one are executed
+    from concurrent.futures import ThreadPoolExecutor
+    plans = [p for p in plans_for(ctx) if not only or p.name in only]
+    with ThreadPoolExecutor(max_workers=1) as ex:
+        futs = [ex.submit(gen_plan, ctx, ladder, p) for p in plans]
+        try:
+            for p, f in zip(plans, futs):
+                replay_plan(ctx, binp, p, *f.result())
+        finally:
+            for f in futs:
+                f.cancel()
     if not only or "conc" in only:
         concurrent(ctx, binp)
     unconf = sum(v for k, v in ctx.counters.items() if k.endswith(".unconfirmed_disagreement"))
     if unconf:
         ctx.notes["unconfirmed_disagreements"] = unconf   # did not show again on immediate re-execution (transport noise)
-        if unconf > 20:
+        if unconf > 20 and not ctx.disagreements:
             raise core.Infra("%d disagreements did not reproduce on re-execution: the environment is too noisy" % unconf)
     if not only and not ctx.disagreements:
         vacuity(ctx)
@@ -340,6 +413,11 @@ def run(ctx):
         "writes always name the affected keys (primary key, index key of the old and of the new name), as the "
         "statement presupposes; reads that consult a key whose removal failed and has not succeeded since are "
         "accepted with either the cached or the current row",
+        "expiry options that are not given or not positive mean the documented defaults (%d s for rows, %d s for "
+        "not-found placeholders: lib/store/cache/option.go); the +-5 %% clause is applied to the expiry in effect" % (DEF_E, DEF_NF),
+        "a context whose deadline passes 'before the first retry' is a hand-made context.Context: virtual seconds have "
+        "no wall-clock counterpart, so its Deadline() is an instant far ahead (never shortens a socket deadline) and the "
+        "driver lets it expire (Done closed, Err = DeadlineExceeded) between the return of the call and the next tick",
         "outages are injected as error replies of the Redis node (bulk) and by closing/restarting the server "
         "(plan 'close'); they change only between operations, not inside one",
     ]
@@ -352,7 +430,14 @@ def vacuity(ctx):
             "out.read_cacheerr": 1, "clu-split.read_cacheerr": 1, "clu-split.retry_del_seconds": 1,
             "clu-mixed.retry_del_seconds": 1, "rclu.retry_del_seconds": 1, "rclu.read_cacheerr": 1,
             "rclu-one.retry_del_seconds": 1, "ladder.retry_del_seconds": 1, "close.retry_del_seconds": 1,
-            "coh-set.op_setcache": 1, "coh-set.op_delcache": 1, "sim.retry_del_seconds": 1}
+            "coh-set.op_setcache": 1, "coh-set.op_delcache": 1, "sim.retry_del_seconds": 1,
+            # removals that failed under a context which has ended by the time of the retry, and their retries
+            "ctx.failed_removal_cx_cancel": 1, "ctx.failed_removal_cx_deadline": 1, "ctx.failed_removal_cx_bg": 1,
+            "ctx.retry_del_after_ctx_end": 1, "ctx.op_delcache": 1, "ctx.op_put": 1,
+            # every class of expiry configuration, with entries and placeholders stored under it
+            "cfg.cfg_e_unset": 1, "cfg.cfg_e_zero": 1, "cfg.cfg_e_negative": 1, "cfg.cfg_e_positive": 1,
+            "cfg.cfg_nf_unset": 1, "cfg.cfg_nf_zero": 1, "cfg.cfg_nf_negative": 1, "cfg.cfg_nf_positive": 1,
+            "cfg.stored_default_expiry": 1, "cfg.stored_default_nf_expiry": 1, "cfg.read_row": 1, "cfg.read_nf": 1}
     missing = [k for k, v in need.items() if c.get(k, 0) < v]
     if missing:
         raise core.Infra("vacuous run: counters %s are zero" % missing)
@@ -374,7 +459,7 @@ def replay(ctx, rp):
     p = plan[0]
     ladder = get_ladder(ctx, binp)
     K = consts(p.ids, p.names, p.datas, list(range(1, p.nodes + 1)), p.place, ladder, p.jits, p.initdbs, p.adv, p.maxfail,
-               e=p.e, nf=p.nf)
+               e=p.e, nf=p.nf, cfgs=p.cfgs, ctxs=p.ctxs)
     path, _ = ctx.write_cases("replay.ndjson", [rp["case"]])
     env = dict(VERIF_C06_CFG=drv_cfg(K, p.nodes, p.place, p.ids, p.names, p.rtype, p.pk), VERIF_C06_FAULT=p.fault)
     ctx.replay(PKG, OVERLAY, RUN, path, label=p.name, env=env, shards=1, binp=binp)
